@@ -192,6 +192,10 @@ func Suite(prop, tier string) []qx.SuiteItem {
 	case "C01", "C07":
 		// the many small scenarios of the both-limits class come first: each is explored by one shard alone
 		items = append(items, bothLimits(prop, thorough, []string{"err:-1", "err:6", "lost"}, b-1)...)
+		if prop == "C01" {
+			// the connection ends after k bytes of a produce response (acknowledgement or refusal), every k
+			items = append(items, cutSweep(prop, thorough)...)
+		}
 		// every class of produce error code, against a retrying sync writer and an async one
 		add(&WS{Name: "error-codes-sync-att2", BatchSize: 2, MaxAttempts: 2, Acks: kafka.RequireAll, WriterTopic: "A",
 			Threads: [][]callSpec{{{Msgs: []msgSpec{m(0), m(0), m(1)}}, {Msgs: []msgSpec{m(0)}}}}, Faults: append(append([]string{}, codes...), "lost")}, cb)
